@@ -162,11 +162,13 @@ public:
 
 	void clearEvents()
 	{
+		EVENTPP_VERIF_POINT("un.hqueue.precheck");
 		if(! queueList.empty()) {
 			BufferedItemList tempList;
 
 			{
 				std::lock_guard<Mutex> queueListLock(queueListMutex);
+				EVENTPP_VERIF_POINT("cs.hqueue.swap");
 				std::swap(queueList, tempList);
 			}
 
@@ -176,6 +178,7 @@ public:
 				}
 
 				std::lock_guard<Mutex> queueListLock(freeListMutex);
+				EVENTPP_VERIF_POINT("cs.hqueue.recycle");
 				freeList.splice(freeList.end(), tempList);
 			}
 		}
@@ -183,6 +186,7 @@ public:
 
 	bool process()
 	{
+		EVENTPP_VERIF_POINT("un.hqueue.precheck");
 		if(! queueList.empty()) {
 			BufferedItemList tempList;
 
@@ -192,6 +196,7 @@ public:
 
 			{
 				std::lock_guard<Mutex> queueListLock(queueListMutex);
+				EVENTPP_VERIF_POINT("cs.hqueue.swap");
 				std::swap(queueList, tempList);
 			}
 
@@ -202,6 +207,7 @@ public:
 				}
 
 				std::lock_guard<Mutex> queueListLock(freeListMutex);
+				EVENTPP_VERIF_POINT("cs.hqueue.recycle");
 				freeList.splice(freeList.end(), tempList);
 
 				return true;
@@ -213,6 +219,7 @@ public:
 
 	bool processOne()
 	{
+		EVENTPP_VERIF_POINT("un.hqueue.precheck");
 		if(! queueList.empty()) {
 			BufferedItemList tempList;
 
@@ -222,7 +229,9 @@ public:
 
 			{
 				std::lock_guard<Mutex> queueListLock(queueListMutex);
+				EVENTPP_VERIF_POINT("cs.hqueue.takeone");
 				if(! queueList.empty()) {
+					EVENTPP_VERIF_POINT("cs.hqueue.takeone.splice");
 					tempList.splice(tempList.end(), queueList, queueList.begin());
 				}
 			}
@@ -233,6 +242,7 @@ public:
 				item.clear();
 
 				std::lock_guard<Mutex> queueListLock(freeListMutex);
+				EVENTPP_VERIF_POINT("cs.hqueue.recycle");
 				freeList.splice(freeList.end(), tempList);
 
 				return true;
@@ -245,6 +255,7 @@ public:
 	template <typename F>
 	bool processIf(F && func)
 	{
+		EVENTPP_VERIF_POINT("un.hqueue.precheck");
 		if(queueList.empty()) {
 			return false;
 		}
@@ -317,6 +328,7 @@ private:
 
 		{
 			std::lock_guard<Mutex> queueListLock(queueListMutex);
+			EVENTPP_VERIF_POINT("cs.hqueue.swap");
 			std::swap(queueList, tempList);
 		}
 
@@ -348,11 +360,13 @@ private:
 
 			if (! tempList.empty()) {
 				std::lock_guard<Mutex> queueListLock(queueListMutex);
+				EVENTPP_VERIF_POINT("cs.hqueue.requeue");
 				queueList.splice(queueList.begin(), tempList);
 			}
 
 			if(! idleList.empty()) {
 				std::lock_guard<Mutex> queueListLock(freeListMutex);
+				EVENTPP_VERIF_POINT("cs.hqueue.recycle.idle");
 				freeList.splice(freeList.end(), idleList);
 
 				return true;
@@ -404,6 +418,7 @@ private:
 			typename PrototypeInfo::ArgsTuple(std::forward<T>(first), std::forward<Args>(args)...)
 		));
 
+		EVENTPP_VERIF_POINT("un.hqueue.enqueue.before_notify");
 		if(doCanProcess()) {
 			queueListConditionVariable.notify_one();
 		}
@@ -427,6 +442,7 @@ private:
 			typename PrototypeInfo::ArgsTuple(std::forward<Args>(args)...)
 		));
 
+		EVENTPP_VERIF_POINT("un.hqueue.enqueue.before_notify");
 		if(doCanProcess()) {
 			queueListConditionVariable.notify_one();
 		}
@@ -436,10 +452,13 @@ private:
 	void doEnqueueItem(T && item)
 	{
 		BufferedItemList tempList;
+		EVENTPP_VERIF_POINT("un.hqueue.enqueue.freecheck");
 		if(! freeList.empty()) {
 			{
 				std::lock_guard<Mutex> queueListLock(freeListMutex);
+				EVENTPP_VERIF_POINT("cs.hqueue.enqueue.free");
 				if(! freeList.empty()) {
+					EVENTPP_VERIF_POINT("cs.hqueue.enqueue.free.splice");
 					tempList.splice(tempList.end(), freeList, freeList.begin());
 				}
 			}
@@ -453,6 +472,7 @@ private:
 		it->set(std::move(item));
 
 		std::lock_guard<Mutex> queueListLock(queueListMutex);
+		EVENTPP_VERIF_POINT("cs.hqueue.enqueue.splice");
 		queueList.splice(queueList.end(), tempList, it);
 	}
 
